@@ -214,11 +214,19 @@ def multi_session(camp, rng, rounds):
             else:
                 factory.output = io.StringIO()
             specs = []
-            for _ in range(rng.choice([2, 3])):
+            # password_required is ONE setting of the factory (vnclog --password-required), read while each connection's
+            # handshake is parsed: every viewer of this factory meets the same value
+            for _ in range(rng.choice([2, 3]) * 6):
                 srv, version, pwreq, sched, _ai = one_session(rng)
                 if srv.findings or not srv.established:
                     continue
+                if specs and pwreq != specs[0][0]:
+                    continue
                 specs.append((pwreq, list(sched)))
+                if len(specs) >= 3:
+                    break
+            if specs:
+                factory.password_required = specs[0][0]
             # per-connection files + overlapping connections is the open finding c16-forever-concurrent
             overlap = mode == "stream" and rng.random() < 0.5
             camp.evaluations += 1
@@ -228,7 +236,6 @@ def multi_session(camp, rng, rounds):
 
             def conn(j):
                 if j not in sessions:
-                    factory.password_required = specs[j][0]
                     sessions[j] = [Proxy(factory=factory, clock=clock), specs[j][1], b"", b""]
                 return sessions[j]
             if overlap:
